@@ -5,6 +5,7 @@ package main
 // go/packages and lowered to SSA by go/ssa.
 
 import (
+	"sync"
 	"encoding/json"
 	"fmt"
 	"go/ast"
@@ -51,6 +52,7 @@ type Prog struct {
 	roleNotes []string
 
 	preRole   map[string]*ssa.Function
+	fwd       sync.Map // *ssa.Function -> *ssa.Function (forwardTarget cache)
 	NormNotes []string        // what normalize.go did to the source before analysis
 	dropped   map[string]bool // helper functions inlined at every call site ("pkg|recv|name")
 }
@@ -165,6 +167,13 @@ func LoadRepo(repo string, whole bool, goarch string, overlay map[string][]byte)
 		}
 	}
 	p.aliasMethodFuncs()
+	for _, cf := range canonFuncs {
+		if cf.Recv == "" {
+			if sp := p.SSA[cf.Pkg]; sp != nil {
+				p.forwardTarget(sp.Func(cf.Name))
+			}
+		}
+	}
 	p.collectFuncs()
 	if len(p.funcs) < 100 {
 		return nil, fmt.Errorf("only %d module functions found; expected > 100", len(p.funcs))
@@ -291,9 +300,56 @@ func (p *Prog) Fn(pkg, name string) *ssa.Function {
 		return nil
 	}
 	if f := sp.Func(name); f != nil {
+		// a canonical function that only forwards to a new, extended variant of itself
+		// (newContext → newContextWithX(same arguments…, extra)) is represented by that variant
+		if g := p.forwardTarget(f); g != nil {
+			return g
+		}
 		return f
 	}
 	return p.roleFn[roleKey(pkg, "", name)]
+}
+
+// forwardTarget: f's body is `return g(f's parameters in order, extra…)` for a module function g
+// of the same package: g (aliased to f's name) stands for f.
+func (p *Prog) forwardTarget(f *ssa.Function) *ssa.Function {
+	if f == nil || len(f.Blocks) != 1 || f.Signature.Recv() != nil {
+		return nil
+	}
+	if v, ok := p.fwd.Load(f); ok {
+		g, _ := v.(*ssa.Function)
+		return g
+	}
+	var call *ssa.Call
+	n := 0
+	for _, in := range f.Blocks[0].Instrs {
+		switch x := in.(type) {
+		case *ssa.Call:
+			call = x
+			n++
+		case *ssa.Return, *ssa.Extract, *ssa.DebugRef, *ssa.Alloc, *ssa.Store, *ssa.UnOp, *ssa.FieldAddr, *ssa.MakeInterface:
+		default:
+			n += 10
+		}
+	}
+	var g *ssa.Function
+	if call != nil && n == 1 {
+		if cal := call.Call.StaticCallee(); cal != nil && cal.Pkg == f.Pkg && cal != f && len(call.Call.Args) >= len(f.Params) && len(f.Params) > 0 {
+			ok := true
+			for i, prm := range f.Params {
+				if call.Call.Args[i] != ssa.Value(prm) {
+					ok = false
+				}
+			}
+			if ok {
+				g = cal
+				funcAlias.Store(g, shortName(f.Object().(*types.Func).FullName()))
+				p.NormNotes = append(p.NormNotes, fmt.Sprintf("%s only forwards to %s (same arguments, more appended): %s is analysed in its place", f.Name(), g.Name(), g.Name()))
+			}
+		}
+	}
+	p.fwd.Store(f, g)
+	return g
 }
 
 // Named returns the named type pkg.name or nil.
